@@ -4,6 +4,7 @@ package main
 import (
 	"encoding/binary"
 	"fmt"
+	"regexp"
 	"runtime"
 	"sort"
 	"strings"
@@ -51,12 +52,14 @@ type worker struct {
 	shardPos int
 	prog     []byte // shared mapping: [0:8] caseNo, [8:16] shard position, [16] reason
 	skip     map[int64]bool
+	after    int64
 	only     int64
 	trace    bool
 
 	maxFrac   float64 // largest alloc/budget among cases within budget
 	maxAlloc  uint64
 	maxAllocN int
+	maxDesc   string
 	ms0, ms1  runtime.MemStats
 }
 
@@ -67,6 +70,18 @@ func (w *worker) useCfg(i int) {
 	w.cfgIdx = i
 	w.st = &appState{qs: w.qs, file: w.file}
 	w.app = buildApp(&cfgs[i], w.st)
+	// warm-up, not judged: one-time initialisations (encoder caches, decoder tables, pools) are
+	// not a per-request cost
+	for _, q := range warmRequests {
+		serveRecover(w.app, fx.NewWireConn([]byte(q), nil))
+	}
+}
+
+var warmRequests = []string{
+	"GET /all HTTP/1.1\r\nHost: h\r\n\r\n",
+	"POST /all HTTP/1.1\r\nHost: h\r\nContent-Type: application/x-www-form-urlencoded\r\nContent-Length: 3\r\n\r\na=b",
+	"POST /all HTTP/1.1\r\nHost: h\r\nContent-Type: application/json\r\nContent-Length: 9\r\n\r\n{\"a\":\"b\"}",
+	"GET /h/Set?i=1 HTTP/1.1\r\nHost: h\r\n\r\n",
 }
 
 func (w *worker) cfg() *cfgT { return &cfgs[w.cfgIdx] }
@@ -97,7 +112,7 @@ func (w *worker) begin(desc func() map[string]any) bool {
 	if w.only >= 0 && n != w.only {
 		return false
 	}
-	if w.skip[n] {
+	if w.skip[n] || n <= w.after {
 		return false
 	}
 	w.caseAtom.Store(n)
@@ -126,9 +141,8 @@ func (w *worker) exec(req []byte) *result {
 func (w *worker) remeasure(req []byte) uint64 {
 	st := &appState{qs: w.qs, file: w.file}
 	app := buildApp(w.cfg(), st)
-	warm := []byte("GET /all HTTP/1.1\r\nHost: h\r\n\r\n")
-	for i := 0; i < 2; i++ {
-		serveRecover(app, fx.NewWireConn(warm, nil))
+	for _, q := range warmRequests {
+		serveRecover(app, fx.NewWireConn([]byte(q), nil))
 	}
 	conn := fx.NewWireConn(req, nil)
 	var a, b runtime.MemStats
@@ -184,7 +198,12 @@ func clipReq(b []byte) string {
 	return fmt.Sprintf("%q", b)
 }
 
+var dateRe = regexp.MustCompile(`Date: [A-Za-z]{3}, [0-9]{2} [A-Za-z]{3} [0-9]{4} [0-9:]{8} GMT`)
+
+// clipOut renders written bytes for a report (the Date value is masked so that replay files are
+// identical from run to run).
 func clipOut(b []byte) string {
+	b = dateRe.ReplaceAll(b, []byte("Date: <date>"))
 	if len(b) > 900 {
 		return fmt.Sprintf("%q...(%d bytes)", b[:900], len(b))
 	}
@@ -196,7 +215,7 @@ type judgeOpts struct {
 	exactlyOne   bool   // the stream holds exactly one request: exactly one final response is required
 	skipParse    bool   // response syntax is not judged (argument outside the documented domain)
 	allocTrigger string // names the input class in an allocation signature
-	extraSig     string // appended to response-syntax signatures (family 3: helper=...)
+	parseSig     func(*ParseErr) string // family 3: classifies a response-syntax error per helper
 }
 
 // judgeCommon applies oracles (i) panic, (iii) allocation, (iv) strict parse + response count,
@@ -230,6 +249,7 @@ func (w *worker) judgeCommon(req []byte, res *result, desc func() map[string]any
 	} else {
 		if f := float64(res.alloc) / float64(bud); f > w.maxFrac {
 			w.maxFrac, w.maxAlloc, w.maxAllocN = f, res.alloc, len(req)
+			w.maxDesc = core.Key(desc())
 		}
 	}
 	if res.pan != nil {
@@ -243,13 +263,19 @@ func (w *worker) judgeCommon(req []byte, res *result, desc func() map[string]any
 			l.Add("unspecified_skipped", 1)
 			return nil
 		}
-		sig := fmt.Sprintf("malformed-response fam=%s class=%s where=%s header=%s", o.fam, res.perr.Class, res.perr.Where, res.perr.Header)
-		if o.extraSig != "" {
-			sig += " " + o.extraSig
+		sig := fmt.Sprintf("malformed-response fam=%s class=%s where=%s header=%s", o.fam, res.perr.Class, res.perr.Where, knownHeader(res.perr.Header))
+		if o.parseSig != nil {
+			sig = o.parseSig(res.perr)
 		}
 		l.Violate(sig, "the bytes written by the server are not a well-formed HTTP/1.1 response sequence for a strict client",
 			desc(), map[string]any{"error": res.perr.Error(), "written": clipOut(res.out)}, "status line, token ':' value lines without CR/LF/NUL, exact framing, nothing after the body")
 		return first
+	}
+	for i := range res.resps {
+		if res.resps[i].BodyDespiteHead {
+			l.Add("unspecified_skipped", 1)
+			l.Add("head_error_response_with_body_on_close", 1)
+		}
 	}
 	// response count
 	ends := headerBlockEnds(req)
@@ -278,6 +304,35 @@ func (w *worker) judgeCommon(req []byte, res *result, desc func() map[string]any
 			"the error handler was invoked with a non-4xx code for client bytes", desc(), clipOut(res.out), "4xx")
 	}
 	return first
+}
+
+var responseHeaderNames = map[string]bool{"Date": true, "Content-Type": true, "Content-Length": true, "Connection": true, "Set-Cookie": true, "Location": true,
+	"Vary": true, "Etag": true, "ETag": true, "Last-Modified": true, "Link": true, "Content-Disposition": true, "X-Test": true, "X-Res": true, "Server": true, "": true}
+
+func knownHeader(h string) string {
+	if responseHeaderNames[h] {
+		return h
+	}
+	return "(other)"
+}
+
+// f3ParseClass turns a response-syntax error of a helper response into one of two stable
+// classes (two, because a repair may neutralise CR/LF and still let NUL through, as fasthttp's
+// own Set/Add do):
+//
+//	CR/LF-not-neutralised  the helper's line was ended by the argument's CR/LF (a malformed or
+//	                       attacker-chosen line follows, or the header block ends early), or a
+//	                       bare CR / bare LF sits inside the value
+//	NUL-not-neutralised    a raw NUL byte sits inside the helper's header value
+func f3ParseClass(sp *helperSpec, e *ParseErr) string {
+	if e.Class == "NUL-in-header-value" && !strings.HasPrefix(e.Where, "after-response") {
+		for _, n := range append(append([]string{}, baseHeaderNames...), sp.Extra...) {
+			if n == e.Header {
+				return "NUL-not-neutralised header=" + e.Header
+			}
+		}
+	}
+	return "CR/LF-not-neutralised"
 }
 
 func countCls(n int) string {
@@ -338,7 +393,7 @@ func (w *worker) runF1(line reqLine, h hset) {
 		l.Sample(map[string]any{"case": desc(), "status": st, "handler_ran": w.st.ran, "alloc_bytes": res.alloc})
 	}
 	if w.st.rangeCls == "OUTSIDE" {
-		l.Violate("range-outside-size", "Range(1000) returned a range that does not lie inside [0,1000)", desc(), nil, nil)
+		l.Violate("range-outside-size", "Range(1000) returned a range outside [0,1000): slicing the 1000-byte entity with it panics in the handler", desc(), nil, "0 <= Start <= End <= 999")
 	}
 	if res.pan != nil {
 		w.app = nil // rebuild after an escaped panic
@@ -422,9 +477,9 @@ func (w *worker) runF2(seedIdx int, buf *[]byte, es ...edit) {
 		l.Sample(map[string]any{"case": desc(), "status": st, "handler_ran": w.st.ran, "alloc_bytes": res.alloc})
 	}
 	if w.st.rangeCls == "OUTSIDE" {
-		l.Violate("range-outside-size", "Range(1000) returned a range that does not lie inside [0,1000)", desc(), nil, nil)
+		l.Violate("range-outside-size", "Range(1000) returned a range outside [0,1000): slicing the 1000-byte entity with it panics in the handler", desc(), nil, "0 <= Start <= End <= 999")
 	}
-	if len(es) == 0 && (st != 200 || w.st.ran == 0) {
+	if len(es) == 0 && (st != 200 || w.st.ran == 0) && !(w.cfg().Name == "smallbuf" && (st == 413 || st == 431)) && len(w.st.panics) == 0 {
 		// anti-vacuity: every seed must be a request the server serves
 		core.Fatal("seed %d is not served with 200 by config %s (status %d): %s", seedIdx, w.cfg().Name, st, clipOut(res.out))
 	}
@@ -455,7 +510,8 @@ func (w *worker) runF3(hi int, qi int) {
 		l.Add("nontrivial", 1)
 	}
 	outside := sp.NameLike && hasCtl(q)
-	first := w.judgeCommon(req, res, desc, judgeOpts{fam: "f3", exactlyOne: !outside, skipParse: outside, allocTrigger: "f3:" + sp.Name, extraSig: "helper=" + sp.Name})
+	first := w.judgeCommon(req, res, desc, judgeOpts{fam: "f3", exactlyOne: !outside, skipParse: outside, allocTrigger: "f3:" + sp.Name,
+		parseSig: func(e *ParseErr) string { return fmt.Sprintf("f3 helper=%s %s", sp.Name, f3ParseClass(sp, e)) }})
 	cls := "ok"
 	defer func() { l.Outcome(fmt.Sprintf("f3 helper=%s %s", sp.Name, cls)) }()
 	if qi%397 == 0 && hi%5 == 0 {
@@ -468,7 +524,7 @@ func (w *worker) runF3(hi int, qi int) {
 		return
 	}
 	if res.perr != nil {
-		cls = "unparsable:" + res.perr.Class
+		cls = f3ParseClass(sp, res.perr)
 		return
 	}
 	if outside {
@@ -501,8 +557,8 @@ func (w *worker) runF3(hi int, qi int) {
 	}
 	sort.Strings(bad)
 	if len(bad) > 0 {
-		cls = "header-line-added"
-		l.Violate(fmt.Sprintf("f3 helper=%s header-line-added", sp.Name),
+		cls = "CR/LF-not-neutralised"
+		l.Violate(fmt.Sprintf("f3 helper=%s CR/LF-not-neutralised", sp.Name),
 			"the string passed to the response helper added a header line to the response", desc(), map[string]any{"unexpected_header_names": bad, "written": clipOut(res.out)}, map[string]any{"allowed_names": append(append([]string{}, baseHeaderNames...), sp.Extra...)})
 		return
 	}
